@@ -30,3 +30,15 @@ claim('C17',
       'is an analysis error. Does not decide equality of meshes/temperatures.',
       'Trusted: the frozen classification of schema keys and reference conversion constants in dsa/rules/c17.py.',
       'DESIGN.md 4 C17')
+claim('C18',
+      'error-discipline rules on the CFG (terminators, fall-through), guard wiring via call graph, key-influence analysis, '
+      'path-sensitive definite assignment, schema-conformance of input reads (interprocedural access-path binding)',
+      'Static conformance to the structural necessary conditions of C18 in DESIGN 4.18: LoggedClass.log terminates on error/critical; '
+      'every LoggedClass.log call has a literal level and a message; every module-level error log is followed by exit/raise on all '
+      'paths; every check_* is wired into input reading; the keys of each impossible-input class still influence an error decision; '
+      'no local of any solver function is read unassigned on a feasible path (guard-correlated refinement); every constant key read '
+      'from the parsed input (through parameters bound interprocedurally) exists in the schema or is created by read_input. '
+      'Exhaustive over all call sites / functions of the parsed tree. Does not decide that each numeric guard rejects every member '
+      'of its class.',
+      'Trusted: exception tables in dsa/rules/c18.py (each entry with its reason), the receiver/callee resolution of dsa/resolve.py.',
+      'DESIGN.md 4 C18')
